@@ -225,6 +225,67 @@ func init() {
 		x.InputID = hashBytes([]byte{byte(hi), byte(cut), byte(gap), byte(hdr), 0x13})
 		fs.flush(x, n)
 	}
+	// every byte string of length 1..3 as the prefix (marks of other encodings and formats, e.g. byte order marks)
+	hBytes := func(x *mc.Exec) {
+		L := 1 + x.All("prefix-length", 3)
+		b0 := byte(x.All("first-byte", 256))
+		hdr := x.All("header", 2)
+		fs := newFailSet("tiff.ScanTiffHeader.byte-prefix")
+		n := 0
+		tailB := c12Tail(hdr, 0, 0)
+		stream := append(make([]byte, L), tailB...)
+		stream[0] = b0
+		rd := bytes.NewReader(nil)
+		br := bufio.NewReaderSize(rd, 4096)
+		rest := make([]byte, len(stream)+8)
+		lean := func() { // c12Check without its allocations: buffered caller only
+			off, bo, ifd, ok := refTiffSearch(stream)
+			rd.Reset(stream)
+			br.Reset(rd)
+			var h meta.ExifHeader
+			var err error
+			if pi := mc.Guard(func() { h, err = tiff.ScanTiffHeader(br, imagetype.ImageUnknown) }); pi != nil {
+				fs.add(pi.Signature(), fmt.Sprintf("%q %s", stream[:L+4], pi.Value))
+				return
+			}
+			switch {
+			case !ok:
+				if err != meta.ErrNoExif {
+					fs.add("no-signature-but-no-ErrNoExif", fmt.Sprintf("%q", stream[:L+4]))
+				}
+			case err != nil:
+				fs.add("signature-present-but-error", fmt.Sprintf("%q want offset %d, got err=%v", stream[:L+4], off, err))
+			case int(h.TiffHeaderOffset) != off || h.ByteOrder != bo || h.FirstIfdOffset != ifd:
+				fs.add("wrong-offset", fmt.Sprintf("%q want %d got %+v", stream[:L+4], off, h))
+			default:
+				k, _ := io.ReadFull(br, rest)
+				if !bytes.Equal(rest[:k], stream[off:]) {
+					fs.add("stream-not-positioned-at-header", fmt.Sprintf("%q header at %d, %d bytes follow the search, the first of them %q", stream[:L+4], off, k, rest[:min(k, 8)]))
+				}
+			}
+		}
+		var rec func(i int)
+		rec = func(i int) {
+			if i == L {
+				n++
+				if L < 3 {
+					c12Check(stream, fs)
+				} else {
+					lean()
+				}
+				return
+			}
+			for v := 0; v < 256; v++ {
+				stream[i] = byte(v)
+				rec(i + 1)
+			}
+		}
+		rec(1)
+		x.Bulk = int64(n) - 1
+		x.Outcome = fmt.Sprint(L)
+		x.InputID = hashBytes([]byte{byte(L), b0, byte(hdr), 0x14})
+		fs.flush(x, n)
+	}
 	register(&mc.Check{
 		Property: "C12",
 		Spaces: func(tier string) []mc.Space {
@@ -239,6 +300,8 @@ func init() {
 					Rule: "every prefix length 0..300 x 9 filler patterns (plain bytes, single letters, mixed marks MI\\0* / IM*\\0, partial signatures) x header x first-IFD offset x tails"},
 				{Name: "foreign-header-prefixes", H: hForeign, NoLevels: true,
 					Rule: "the canonical header of every other supported format, cut at 4..24 bytes, plus a gap of 0/1/4/11 bytes, in front of the TIFF block (the sniffers that look at the first window must not disturb the search)"},
+				{Name: "all-byte-prefixes", H: hBytes, NoLevels: true,
+					Rule: "every byte string of length 1, 2 and 3 (all 2^24) in front of each header: offset, byte order, first-IFD offset and the stream position after the search"},
 				{Name: "window-boundaries", H: hLong, NoLevels: true,
 					Rule: "prefix lengths 4060..4139 and 8156..8235 (bufio window boundaries minus the 32-byte peek) x 10 repeating partial-signature patterns x header x tails"},
 			}
